@@ -837,6 +837,10 @@ Definition encodeLongCodes (short long : arr) (d : dynHdr) (codeListLen : N)
               (maxLen0, [li]) in
           let temp := frev tempRev in
           let grp := shl32 1 (maxLen - 12) in
+          (* clear the group first (fix 93d504a); x reaching len(longCodeLookup) = 1264 panics *)
+          if 1264 <? lcl + grp then (short, long, huff, lcl, true)
+          else
+          let long := forN lcl (lcl + grp) (fun x t => aset t x 0) long in
           let '(long, huff, pan) :=
             fold_left (fun (a : arr * arr * bool) (sym1Index : N) =>
               let '(long, huff, pan) := a in
